@@ -26,7 +26,7 @@ from common import Corr, Broken, coq_eval, coq_eval_many, parse_evals, VERIF  # 
 from translate import noise_tr  # noqa: E402
 
 ID = "C15"
-TARGETS = ["Props/C15.vo"]
+TARGETS = ["Props/C15.vo", "Props/C15Sol.vo"]
 TRUSTED = [
     "translator tools/translate/noise_tr.py (Python ast of RelaxationNoise._T_to_list / get_noisy_pulses -> syntax trees of "
     "Model.Relax; fail-closed; evaluates nothing) and the interpreter Model.Relax (Python float vs numpy division/sqrt "
@@ -34,8 +34,15 @@ TRUSTED = [
     "a collapse coefficient c is represented by (sign c, c^2): np.sqrt is never evaluated in the model; "
     "coefficient_squared_is_rate2/3 prove that the dissipator only depends on c*conj(c)",
     "Model.Lindblad.lind is what qutip.mesolve integrates for each element of c_ops (validated numerically against "
-    "qutip.lindblad_dissipator on every run); that x' = -x/tau has the solution exp(-t/tau) is cited, not proved",
-    "NOT modelled: qutip.mesolve / ODE integration, positivity (complete positivity of the semigroup), 'to solver "
+    "qutip.lindblad_dissipator on every run). PROVED (Reals + Coquelicot): the closed-form rho(t) of one idle 2-level "
+    "subsystem (and the full 3-level truncation) satisfies d/dt rho = L(rho) entrywise with rho(0) given, and stays "
+    "Hermitian/PSD/unit-trace for all t >= 0 when t2 <= 2 t1 (2 and 3 levels; tight: refuted for t2 > 2 t1). NOT proved: "
+    "uniqueness of solutions of the linear ODE (that the solver's exact target IS this closed form; checked numerically on "
+    "every run against qutip.mesolve), the numerical solver, PSD of multi-subsystem (entangled) states",
+    "axioms of the real-number theorems: ClassicalDedekindReals.sig_forall_dec, ClassicalDedekindReals.sig_not_dec and "
+    "FunctionalExtensionality.functional_extensionality_dep (all three are what the standard-library Reals themselves rest on "
+    "in Coq 8.16); Classical_Prop.classic is NOT used (no auto_derive, exp monotonicity proved from the power series)",
+    "NOT modelled: qutip.mesolve / numerical ODE integration, complete positivity in general, 'to solver "
     "tolerance', ControlAmpNoise / RandomNoise / ZZCrossTalk / DecoherenceNoise and process_noise's collection logic "
     "(checked by the numeric oracle only), independence for registers of more than two subsystems (proved for the "
     "bipartite registers 2x2, 2x3, 3x2, 3x3 with arbitrary states and collapse operators; checked numerically for 3 subsystems)",
@@ -373,6 +380,49 @@ def _physical(rho, tol=1e-6):
     return None
 
 
+def _closed_form(r, p, c, t):
+    """the closed-form solution proved in coq/Proofs/RelaxSolution.v (2 levels) / RelaxSolution3.v (3 levels, arbitrary
+    initial table r), transcribed: p = population rate 1/t1, c = coherence rate 1/t2"""
+    e, f = math.exp(-p * t), math.exp(-c * t)
+    if r.shape == (2, 2):
+        return np.array([[r[0, 0] + (1 - e) * r[1, 1], f * r[0, 1]], [f * r[1, 0], e * r[1, 1]]])
+    w, g = math.sqrt(2), math.exp(-(4 * c - p) * t)
+    return np.array([
+        [r[0, 0] + (1 - e) * r[1, 1] + (1 - e) ** 2 * r[2, 2], f * (r[0, 1] + w * (1 - e) * r[1, 2]), g * r[0, 2]],
+        [f * (r[1, 0] + w * (1 - e) * r[2, 1]), e * (r[1, 1] + 2 * (1 - e) * r[2, 2]), f * e * r[1, 2]],
+        [g * r[2, 0], f * e * r[2, 1], e * e * r[2, 2]]])
+
+
+def _solve_closed_form(inp, evo, fail, rs):
+    """solver on the REAL (H, c_ops) vs the closed form proved in Coq, every level populated (ties the proved solution
+    of the master equation to what the external solver returns; uniqueness of ODE solutions is not proved in Coq)"""
+    import qutip
+    dims = inp["dims"]
+    n = len(dims)
+    H, c_ops = evo
+    kets = []
+    for d in dims:
+        v = np.array([0.5, 0.5j, math.sqrt(0.5)])[:d] if d == 3 else np.array([0.6, 0.8j])
+        kets.append(qutip.Qobj(v))
+    psi = qutip.tensor(kets)
+    T = float(rs.choice([0.5, 2.0]))
+    res = qutip.mesolve(H, psi * psi.dag(), [0.0, T / 2, T], c_ops=c_ops,
+                        options={"atol": 1e-11, "rtol": 1e-10, "progress_bar": False, "nsteps": 100000})
+    for k, tt in ((1, T / 2), (2, T)):
+        fin = res.states[k].full()
+        for q in range(n):
+            t1q, t2q = _per_qubit(inp["t1"], q, n), _per_qubit(inp["t2"], q, n)
+            g_pop = 0.0 if t1q is None else 1.0 / t1q
+            g_coh = (1.0 / t2q) if t2q is not None else (0.0 if t1q is None else 0.5 / t1q)
+            r0 = kets[q].full() @ kets[q].full().conj().T
+            exp_m = _closed_form(r0, g_pop, g_coh, tt)
+            got = _ptrace_keep(fin, q, dims)
+            if np.abs(got - exp_m).max() > 2e-6:
+                fail(np.round(got, 7).tolist().__repr__(), np.round(exp_m, 7).tolist().__repr__(),
+                     f"solver state of subsystem {q} (dimension {dims[q]}) at t={tt} differs from the proved closed-form solution")
+                return
+
+
 def _solve_check(inp, evo, fail, rs):
     """the external solver on the REAL (H, c_ops): exp(-t/t1), exp(-t/t2) and physical states (small registers only)"""
     import qutip
@@ -404,6 +454,8 @@ def _solve_check(inp, evo, fail, rs):
         if abs(r[1, 1].real - exp_pop) > 1e-5 or abs(abs(r[0, 1]) - exp_coh) > 1e-5:
             fail(f"rho_11={r[1,1].real:.8f} |rho_01|={abs(r[0,1]):.8f} at t={T}", f"{exp_pop:.8f}, {exp_coh:.8f}",
                  f"solver result on subsystem {q} is not exp(-t/t1), exp(-t/t2)")
+            return
+    _solve_closed_form(inp, evo, fail, rs)
 
 
 def _oracle(inp, corr_fail, rs, solve=False, impl=None):
